@@ -3,6 +3,7 @@
 //! values, writes the dump with the FROZEN writer (vendor/vf-synth; raw sections where it has no helper), reads it
 //! back with /repo's minidump crate and compares item by item and byte by byte.  Identifier *rules* come from the
 //! specification as constructor terms; they are rendered here from the leaf values that were written.
+use std::collections::HashMap;
 use debugid::{CodeId, DebugId};
 use minidump::*;
 use rand::rngs::StdRng;
@@ -508,6 +509,8 @@ fn run_case(c: &Value, rng: &mut StdRng, rep: &mut Report) {
 /// The fixed rich templates read back field by field (the "faithful index" part for the streams the facets above
 /// do not vary): every constant below is the one rich.rs wrote.
 fn templates(rep: &mut Report) {
+    // register values of every thread context as read from the little-endian template, for comparison with the big-endian one
+    let mut le_regs: HashMap<(String, usize), Vec<(&'static str, u64, usize)>> = HashMap::new();
     for flavour in vharness::rich::FLAVOURS {
         for big in [false, true] {
             let bytes = vharness::rich::template_with_exception(flavour, big, 3);
@@ -537,6 +540,24 @@ fn templates(rep: &mut Report) {
                 let want: Vec<u8> = (0..(96 + 8 * k)).map(|i| (i * 3 + k) as u8).collect();
                 cmp.eq(&format!("stack bytes[{}]", k), t.stack_memory(&mem).map(|s| s.bytes().to_vec()), Some(want));
                 cmp.eq(&format!("context[{}]", k), t.context(&si, None).is_some(), true);
+                // the context is the same byte pattern in both templates, so a register read from the big-endian one is the byte-reversed
+                // value of the little-endian one (every general-purpose register, instruction and stack pointer)
+                if let Some(ctx) = t.context(&si, None) {
+                    let w = ctx.register_size();
+                    let mut regs: Vec<(&'static str, u64, usize)> = ctx.general_purpose_registers().iter().filter_map(|n| ctx.get_register(n).map(|v| (*n, v, w))).collect();
+                    regs.push(("<instruction pointer>", ctx.get_instruction_pointer(), w));
+                    regs.push(("<stack pointer>", ctx.get_stack_pointer(), w));
+                    if !big { le_regs.insert((flavour.to_string(), k), regs); }
+                    else if let Some(le) = le_regs.get(&(flavour.to_string(), k)) {
+                        cmp.eq(&format!("context register names[{}]", k), regs.iter().map(|r| r.0).collect::<Vec<_>>(), le.iter().map(|r| r.0).collect::<Vec<_>>());
+                        for _ in 0..regs.len() { cmp.rep.class("context-register-compared-across-byte-orders"); }
+                        for (l, b) in le.iter().zip(regs.iter()) {
+                            let lb = l.1.to_le_bytes()[..w].to_vec();
+                            let bb = b.1.to_be_bytes()[8 - w..].to_vec();
+                            if lb != bb { cmp.eq(&format!("context register {} bytes[{}]", l.0, k), format!("{:x?}", bb), format!("{:x?}", lb)); }
+                        }
+                    }
+                }
             }
             if small { continue; }
             let a = dump.get_stream::<MinidumpAssertion>().expect("assertion");
